@@ -262,34 +262,46 @@ inductive SlashR where
   | err                 -- returns an error
   | ok (s : App)
 
+/-- `burnBondedTokens` / `burnNotBondedTokens`: the bank refuses to burn more than the pool holds -/
+def burnTokens (s : App) (status : Status) (burn : Int) : SlashR :=
+  match status with
+  | .bonded =>
+    if s.bonded < burn then .err
+    else .ok { s with bonded := s.bonded - burn, supply := s.supply - burn }
+  | _ =>
+    if s.notBonded < burn then .err
+    else .ok { s with notBonded := s.notBonded - burn, supply := s.supply - burn }
+
+/-- `RemoveValidatorTokens` -/
+def removeValidatorTokens (s : App) (v : Val) (burn : Int) : App × Val :=
+  let v' := { v with tokens := v.tokens - burn.toNat }
+  (((s.delIdx v).setVal v').setIdx v', v')
+
+/-- amount of slashing = factor × power at the time of the infraction, truncated -/
+def slashAmountOf (power factor : Int) : Int := decTrunc (chopRound (power * (PR : Int) * E18 * factor))
+
+/-- tokens to burn: `min(slashAmount, tokens)`, never negative -/
+def burnAmount (slashAmount : Int) (tokens : Nat) : Int :=
+  let b := if slashAmount < (tokens : Int) then slashAmount else (tokens : Int)
+  if b < 0 then 0 else b
+
+/-- `Slash` once the validator record was found -/
+def slashVal (s : App) (v : Val) (infraction : Int) (slashAmount : Int) : SlashR :=
+  if v.status = .unbonded then .err
+  else if infraction > s.height then .err
+  else if burnAmount slashAmount v.tokens = 0 then .ok s
+  else
+    let r := s.removeValidatorTokens v (burnAmount slashAmount v.tokens)
+    r.1.burnTokens r.2.status (burnAmount slashAmount v.tokens)
+
 /-- `Slash(consAddr, infractionHeight, power, factor)` without unbonding delegations /
     redelegations (none exist). `factor` is scaled by 10^18. -/
 def slash (s : App) (key : Nat) (infraction : Int) (power : Int) (factor : Int) : SlashR :=
-  if factor < 0 then .err else
-  let amount : Int := power * (PR : Int)
-  let slashAmount : Int := decTrunc (chopRound (amount * E18 * factor))
-  match s.valByKey key with
-  | none => .ok s
-  | some v =>
-    if v.status = .unbonded then .err
-    else if infraction > s.height then .err
-    else
-      let burn0 : Int := if slashAmount < (v.tokens : Int) then slashAmount else (v.tokens : Int)
-      let burn : Int := if burn0 < 0 then 0 else burn0
-      if burn = 0 then .ok s
-      else
-        -- RemoveValidatorTokens
-        let s := s.delIdx v
-        let v' := { v with tokens := v.tokens - burn.toNat }
-        let s := s.setVal v'
-        let s := s.setIdx v'
-        match v'.status with
-        | .bonded =>
-          if s.bonded < burn then .err
-          else .ok { s with bonded := s.bonded - burn, supply := s.supply - burn }
-        | _ =>
-          if s.notBonded < burn then .err
-          else .ok { s with notBonded := s.notBonded - burn, supply := s.supply - burn }
+  if factor < 0 then .err
+  else
+    match s.valByKey key with
+    | none => .ok s
+    | some v => s.slashVal v infraction (slashAmountOf power factor)
 
 /-- staking `Jail` as called from x/slashing (its error result is ignored there);
     `none` = `mustGetValidatorByConsAddr` panics -/
